@@ -26,6 +26,8 @@ type WorkerArgs struct {
 	Runs     int // override of total runs (0 = prop default)
 	// FromIdx: first absolute run index this (restarted) worker segment handles.
 	FromIdx int
+	// SkipSub: sub-runs of run FromIdx already executed by the dead segment.
+	SkipSub int
 	// Progress: file in which the run about to start is announced, so that a
 	// worker killed by a fatal runtime error (out of memory, stack overflow) or
 	// by the hang watchdog can be attributed to the trace it was executing.
@@ -46,13 +48,27 @@ type Progress struct {
 	Idx   int          `json:"idx"`
 	Trace *trace.Trace `json:"trace"`
 	Fault *trace.Fault `json:"fault,omitempty"`
+	Sub   int          `json:"sub"` // ordinal of the announced sub-run within the run
+}
+
+var (
+	progressSub int
+	skipSub     int
+)
+
+// TakeSkipSub returns, once, the number of sub-runs of the first run of this
+// worker segment that were already executed by the previous (dead) segment.
+func TakeSkipSub() int {
+	n := skipSub
+	skipSub = 0
+	return n
 }
 
 func writeProgress(f *trace.Fault) {
 	if progressPath == "" {
 		return
 	}
-	b, _ := json.Marshal(Progress{Idx: progressIdx, Trace: progressTrace, Fault: f})
+	b, _ := json.Marshal(Progress{Idx: progressIdx, Trace: progressTrace, Fault: f, Sub: progressSub})
 	tmp := progressPath + ".tmp"
 	if os.WriteFile(tmp, b, 0o644) == nil {
 		_ = os.Rename(tmp, progressPath)
@@ -62,6 +78,7 @@ func writeProgress(f *trace.Fault) {
 // AnnounceFault is called by fault-enumeration engines before each faulted
 // sub-run so that a process death is attributed to the exact fault.
 func AnnounceFault(f trace.Fault) {
+	progressSub++
 	if progressPath != "" {
 		writeProgress(&f)
 	}
@@ -136,7 +153,13 @@ func RunWorker(p *Prop, a WorkerArgs) *Summary {
 			break
 		}
 		t := GenTrace(p, a.Seed, a.Tier, idx)
-		progressTrace, progressIdx = t, idx
+		progressTrace, progressIdx, progressSub = t, idx, 0
+		if idx == a.FromIdx {
+			skipSub = a.SkipSub
+			progressSub = a.SkipSub
+		} else {
+			skipSub = 0
+		}
 		writeProgress(nil)
 		res := SafeExec(p, t, a.Dir)
 		if res.Infra != "" {
